@@ -94,9 +94,9 @@ def check_case(case):
             if ex.phase == "codegen":
                 nondiff, risky = c06.classify(model)
                 if nondiff:
-                    raise Violation("C07:codegen:floor-or-Mod-of-own-state", dict(ctx, error=str(ex)[:600]))
+                    raise Violation("C07:codegen:floor-or-Mod-of-own-state", dict(ctx, error=str(ex)[:3000]))
                 if risky:
-                    raise Violation("C07:codegen:abs-of-not-provably-real-own-state-expression", dict(ctx, error=str(ex)[:600]))
+                    raise Violation("C07:codegen:abs-of-not-provably-real-own-state-expression", dict(ctx, error=str(ex)[:3000]))
             raise Violation(f"C07:{backend}:{ex.signature()}", dict(ctx, error=str(ex)[:800], code=ex.code))
 
     base = gen(make_mod, backend, ode, model, schemes=["explicit_euler", "generalized_rush_larsen"], delta=delta)
